@@ -38,7 +38,7 @@ def ensure_worktree():
 
 def build_demo(mut, exe):
     if os.path.exists(os.path.join(mut, 'demo.cc')):
-        r = sh('g++ -std=c++11 -O1 -I%s/include -I%s/src %s/demo.cc %s/_b/src/libvata.a -o %s' % (WT, WT, mut, WT, exe))
+        r = sh('g++ -std=c++11 -O1 -DLIBVATA_VERIF -I%s/include -I%s/src %s/demo.cc %s/_b/src/libvata.a -o %s' % (WT, WT, mut, WT, exe))
         return r.returncode == 0, r.stdout[-1500:]
     return True, ''
 
